@@ -246,32 +246,67 @@ Section M.
     intro k. rewrite live_after; auto. apply sm_of_ins_ops. auto.
   Qed.
 
-  Lemma model_meets_spec_gen : forall ops (r : ring val) (m : smap) os,
-    Inv h val r -> r_replicas val r = R -> r_probes val r = P ->
-    (forall k, live val r k = sm_get m k) -> NoDup (keys val m) ->
-    fms_ok m ops os = true ->
-    ok_trace_from m ops (model_obs h R P r ops os) = true.
+  Definition cache_ok (c : option (smap * ring val)) : Prop :=
+    match c with
+    | None => True
+    | Some (fm', fr) => Inv h val fr /\ r_replicas val fr = R /\ r_probes val fr = P
+                        /\ forall k, live val fr k = sm_get fm' k
+    end.
+
+  Lemma smap_eqb_eq : forall a b, smap_eqb a b = true -> a = b.
   Proof.
-    induction ops as [|o ops IH]; intros r m os I ER EP HL ND HF; [reflexivity|].
+    induction a as [|[k v] a IH]; destruct b as [|[k' v'] b]; simpl; intro H; try discriminate; auto.
+    apply andb_true_iff in H. destruct H as [H1 H2]. unfold pair_eqb in H1. simpl in H1.
+    apply andb_true_iff in H1. destruct H1 as [E1 E2]. apply key_eqb_eq in E1. apply key_eqb_eq in E2.
+    rewrite (IH b H2). congruence.
+  Qed.
+
+  Lemma fresh_cached_ok : forall c fm, cache_ok c -> nodup_keys fm = true ->
+    Inv h val (fresh_cached h R P c fm) /\ r_replicas val (fresh_cached h R P c fm) = R
+    /\ r_probes val (fresh_cached h R P c fm) = P
+    /\ forall k, live val (fresh_cached h R P c fm) k = sm_get fm k.
+  Proof.
+    intros c fm HC ND. unfold fresh_cached. destruct c as [[fm' fr]|]; [|apply live_fresh; auto].
+    destruct (smap_eqb fm fm') eqn:E; [|apply live_fresh; auto].
+    apply smap_eqb_eq in E. subst. exact HC.
+  Qed.
+
+  Lemma model_meets_spec_gen : forall ops (r : ring val) (m : smap) os c,
+    Inv h val r -> r_replicas val r = R -> r_probes val r = P ->
+    (forall k, live val r k = sm_get m k) -> NoDup (keys val m) -> cache_ok c ->
+    fms_ok m ops os = true ->
+    ok_trace_from m ops (model_obs h R P c r ops os) = true.
+  Proof.
+    induction ops as [|o ops IH]; intros r m os c I ER EP HL ND HC HF; [reflexivity|].
     cbn [fms_ok] in HF. apply andb_true_iff in HF. destruct HF as [HF1 HF2].
     pose proof (inv_step h val zero_val r o I) as I'.
     destruct (step_params h val zero_val r o) as [ER' EP'].
     assert (forall k, live val (fst (step h val zero_val r o)) k = sm_get (sm_step m o) k) as HL'.
     { intro k. rewrite live_step; auto. rewrite sm_get_step. unfold fstep. destruct o; rewrite ?HL; auto. }
     pose proof (keys_sm_step_NoDup m o ND) as ND'.
-    assert (ok_trace_from (sm_step m o) ops (model_obs h R P (fst (step h val zero_val r o)) ops (tl os)) = true) as Htl.
-    { apply IH; auto; try congruence. }
+    assert (forall c', cache_ok c' ->
+            ok_trace_from (sm_step m o) ops (model_obs h R P c' (fst (step h val zero_val r o)) ops (tl os)) = true) as Htl.
+    { intros c' HC'. apply IH; auto; try congruence. }
     clear IH. cbn [model_obs].
     destruct o as [k v|k|k|].
-    - cbn [step fst] in *. cbn [ok_trace_from]. exact Htl.
-    - cbn [step fst] in *. cbn [ok_trace_from]. exact Htl.
+    - cbn [step fst] in *. cbn [ok_trace_from]. apply Htl; auto.
+    - cbn [step fst] in *. cbn [ok_trace_from]. apply Htl; auto.
     - cbn [step] in *. destruct (lookup h val zero_val r k) as [r' res] eqn:EL. cbn [fst] in *.
       destruct os as [|[| |ores ofres fm] os']; try discriminate.
-      cbn [tl] in *. cbn [ok_trace_from]. cbn [sm_step] in Htl. rewrite Htl, HF1.
       destruct (enumerates_same fm m ND HF1) as [NDf HS].
-      destruct (live_fresh fm NDf) as [If [Rf [Pf Lf]]].
-      assert (res = snd (lookup h val zero_val (fresh h val R P fm) k)) as <-.
+      destruct (fresh_cached_ok c fm HC NDf) as [If [Rf [Pf Lf]]].
+      destruct (lookup h val zero_val (fresh_cached h R P c fm) k) as [fr' fres] eqn:EF.
+      cbn [tl] in *. cbn [ok_trace_from]. cbn [sm_step] in Htl. rewrite HF1.
+      rewrite Htl.
+      2:{ pose proof (inv_step h val zero_val _ (OLookup k) If) as I2.
+          destruct (step_params h val zero_val (fresh_cached h R P c fm) (OLookup k)) as [R2 P2].
+          pose proof (fun x => live_step h val zero_val (fresh_cached h R P c fm) (OLookup k) x If) as L2.
+          cbn [step] in I2, R2, P2, L2. rewrite EF in I2, R2, P2, L2. cbn [fst fstep] in I2, R2, P2, L2.
+          cbn [cache_ok]. repeat match goal with |- _ /\ _ => split end; auto; try congruence;
+            try (intro x; rewrite L2; apply Lf). }
+      assert (res = fres) as <-.
       { replace res with (snd (lookup h val zero_val r k)) by (rewrite EL; auto).
+        replace fres with (snd (lookup h val zero_val (fresh_cached h R P c fm) k)) by (rewrite EF; auto).
         apply lookup_live_ext; auto; try congruence; intro x; rewrite HL, Lf; symmetry; apply HS. }
       rewrite lres_eqb_refl.
       assert (owner_okb m res = true) as ->; auto.
@@ -280,16 +315,17 @@ Section M.
       + rewrite (sm_all_none m); auto. intro x. rewrite <- HL. auto.
       + apply existsb_exists. exists (ok, v). split; [|apply key_eqb_refl].
         apply sm_get_Some_In. rewrite <- HL. auto.
-    - cbn [step fst] in *. cbn [ok_trace_from]. cbn [sm_step] in Htl. rewrite Htl.
+    - cbn [step fst] in *. cbn [ok_trace_from]. cbn [sm_step] in Htl. rewrite Htl; auto.
       rewrite (length_live h r m I ND HL). rewrite Z.eqb_refl. auto.
   Qed.
 
   Lemma model_meets_spec : forall ops os, fms_ok [] ops os = true ->
-    ok_trace ops (model_obs h R P (new val R P) ops os) = true.
+    ok_trace ops (model_obs h R P None (new val R P) ops os) = true.
   Proof.
     intros. unfold ok_trace. apply model_meets_spec_gen; auto.
     - apply inv_new; auto.
     - constructor.
+    - exact Logic.I.
   Qed.
 End M.
 
